@@ -15,6 +15,7 @@ import (
 // txnAnchors locates the functions the transaction rules talk about, structurally.
 type txnAnchors struct {
 	fQueue, fWatches *types.Var
+	fMode            *types.Var    // a boolean “in MULTI” field, when the queue is a plain slice and its nil-ness is not the mode
 	dispatchHandler  *ssa.Function // contains the handler dispatch site
 	dispatchSite     ssa.CallInstruction
 	prepare          *ssa.Function // decides "queued or run now" and produces the response (appends itself or through appender)
@@ -48,7 +49,14 @@ func (c *Ctx) txn() *txnAnchors {
 			if !ok {
 				continue
 			}
-			if _, f := loadedField(st.Addr); f == t.fQueue {
+			_, f := loadedField(st.Addr)
+			if f != t.fQueue {
+				// the queue may be a plain slice field: `cs.cmdQueue = append(cs.cmdQueue, ctx)`
+				if fa, ok := st.Addr.(*ssa.FieldAddr); ok && fieldOf(fa) == t.fQueue {
+					f = t.fQueue
+				}
+			}
+			if f == t.fQueue {
 				if call, ok := st.Val.(*ssa.Call); ok {
 					if b, ok := call.Call.Value.(*ssa.Builtin); ok && b.Name() == "append" {
 						t.prepare, t.appendStore = fn, st
@@ -101,7 +109,44 @@ func (c *Ctx) txn() *txnAnchors {
 			t.handlers[tok] = hs[tok]
 		}
 	}
+	// the mode: nil-ness of the queue pointer, or — when the queue is not a pointer — the boolean field of the connection
+	// that the MULTI handler (with what it calls) sets to true
+	if _, isPtr := t.fQueue.Type().Underlying().(*types.Pointer); !isPtr && t.handlers["multi"] != nil {
+		for f := range c.M.Reach(t.handlers["multi"]) {
+			for _, in := range instrsOf(f) {
+				st, ok := in.(*ssa.Store)
+				if !ok {
+					continue
+				}
+				fa, ok := st.Addr.(*ssa.FieldAddr)
+				if !ok || c.ownerName(fieldOf(fa)) != "clientState" {
+					continue
+				}
+				if k, isC := st.Val.(*ssa.Const); isC && k.Value != nil && k.Value.String() == "true" {
+					t.fMode = fieldOf(fa)
+				}
+			}
+		}
+	}
 	return t
+}
+
+// endsMulti: the instruction puts the connection back into normal mode (queue pointer set to nil, or mode flag cleared)
+func (t *txnAnchors) endsMulti(in ssa.Instruction) bool {
+	if t.fMode != nil {
+		st, ok := isStoreTo(in, t.fMode)
+		if !ok {
+			return false
+		}
+		k, isC := st.Val.(*ssa.Const)
+		return isC && k.Value != nil && k.Value.String() == "false"
+	}
+	st, ok := isStoreTo(in, t.fQueue)
+	if !ok {
+		return false
+	}
+	cst, isC := st.Val.(*ssa.Const)
+	return isC && cst.Value == nil
 }
 
 // queueNilTest finds `cs.cmdQueue == nil` / `!= nil` in fn and returns the successor taken when the queue is non-nil.
@@ -109,6 +154,23 @@ func (t *txnAnchors) queueNonNilSucc(fn *ssa.Function) (*ssa.BasicBlock, *ssa.Ba
 	for _, b := range fn.Blocks {
 		ifi, ok := b.Instrs[len(b.Instrs)-1].(*ssa.If)
 		if !ok {
+			continue
+		}
+		if t.fMode != nil {
+			cond, neg := ifi.Cond, false
+			for {
+				u, ok := cond.(*ssa.UnOp)
+				if !ok || u.Op != token.NOT {
+					break
+				}
+				cond, neg = u.X, !neg
+			}
+			if _, f := loadedField(cond); f == t.fMode {
+				if neg {
+					return b.Succs[1], b.Succs[0], ifi
+				}
+				return b.Succs[0], b.Succs[1], ifi
+			}
 			continue
 		}
 		bo, ok := ifi.Cond.(*ssa.BinOp)
@@ -172,14 +234,7 @@ func ruleC09Reset(c *Ctx) {
 			continue
 		}
 		events := map[string]Event{
-			"cmdQueue=nil": func(in ssa.Instruction) bool {
-				st, ok := isStoreTo(in, t.fQueue)
-				if !ok {
-					return false
-				}
-				cst, isC := st.Val.(*ssa.Const)
-				return isC && cst.Value == nil
-			},
+			"cmdQueue=nil": t.endsMulti,
 			"watches=fresh-map": func(in ssa.Instruction) bool {
 				st, ok := isStoreTo(in, t.fWatches)
 				if !ok {
@@ -573,6 +628,15 @@ func ruleC09AbortFlag(c *Ctx) {
 			if c.isPkgType(x.X.Type(), "respErrorString") {
 				isErr = true
 			}
+		case *ssa.Call:
+			// a parsing phase that hands back the error reply (`req, response := cd.parseRequest(l, input)`)
+			if g := x.Call.StaticCallee(); g != nil && c.InPkg(g) && g != p && returnsResp(c, g) {
+				for _, in3 := range instrsOf(g) {
+					if mi, ok := in3.(*ssa.MakeInterface); ok && c.isPkgType(mi.X.Type(), "respErrorString") {
+						isErr = true
+					}
+				}
+			}
 		}
 		if !isErr {
 			continue
@@ -652,7 +716,7 @@ func ruleC09ErrorsInert(c *Ctx) {
 				for _, in2 := range b.Instrs {
 					touches := false
 					if st, ok := in2.(*ssa.Store); ok {
-						if fa, ok := st.Addr.(*ssa.FieldAddr); ok && (fieldOf(fa) == t.fQueue || fieldOf(fa) == t.fWatches) {
+						if fa, ok := st.Addr.(*ssa.FieldAddr); ok && (fieldOf(fa) == t.fQueue || fieldOf(fa) == t.fWatches || (t.fMode != nil && fieldOf(fa) == t.fMode)) {
 							touches = true
 						}
 					}
